@@ -408,7 +408,7 @@ def run(spec, mon):
             # scenarios without any step (title and tags only) in features without background, skipped by the environment:
             # a skipped element gets no hook, however little there is in it
             gen.update({"p_stepless": 0.3, "p_background": 0.0, "p_rule_background": 0.0})
-        case = RB.gen_case(rng, gen=gen, p_stop=0.25, p_dry=0.08, p_noskipped=0.3, p_user_skip=0.6 if i % 4 == 2 else 0.15)
+        case = RB.gen_case(rng, gen=gen, p_stop=0.25, p_dry=0.08, p_noskipped=0.3, p_names=0.2, p_user_skip=0.6 if i % 4 == 2 else 0.15)
         if i % 4 == 2 and case["program"].get("user_skip"):
             mon.seen("environment_skips_container_with_stepless_scenarios", "yes")
         lab.capture_hooks = None
